@@ -208,6 +208,7 @@ func (p *connPool) stayConnected(idx int) {
 						conn, p.conns[idx] = c, c
 						p.connsMu.Unlock()
 						reconnectPolicy.Reset()
+						verifAt("connpool.slot.set", p, idx, c)
 					}
 					pendingConnect = false
 				}
@@ -219,6 +220,7 @@ func (p *connPool) stayConnected(idx int) {
 				_ = conn.Close()
 			case <-conn.IsClosed():
 				p.logger.Info("pool connection closed", zap.Stringer("endpoint", p.config.Endpoint), zap.Error(conn.Err()))
+				verifAt("connpool.slot.clear", p, idx)
 				p.connsMu.Lock()
 				conn, p.conns[idx] = nil, nil
 				p.connsMu.Unlock()
